@@ -9,8 +9,11 @@
   the in-flight FETCH message and its open literal, the encoder mutex.
 
   Every rule is a partial function `St → Option St` (none = not enabled); `rules` lists them,
-  `Step` is "some rule applies", `next` picks the first enabled rule (the scheduler used to
-  compute predictions; the system is confluent in what is observed). Core Lean only.
+  `Step` is "some rule applies", `next` picks the first enabled rule: the caller's rules come
+  first, so the reader reacts to a response only once the caller cannot move, which is how the
+  scripted peer behaves (it answers a command after having received it). `Step` itself also allows
+  the reader to run ahead (a server answering before it was asked); the client then fails with a
+  protocol error, as the real one does. Core Lean only.
 
   Mirrors (after the repairs 88d951c, 8bcb980 of the go-imap tree): imapclient/client.go `read`,
   `readResponse`, `readResponseTagged`, `readContinueReq`, `completeCommand`, `closeWithError`,
@@ -128,16 +131,11 @@ structure St where
 
 /-! ## command table -/
 
-def cmdAt? (s : St) (c : Nat) : Option Cmd :=
-  if c = 0 then none else s.cmds[c - 1]?
-
-def setAt : List Cmd → Nat → Cmd → List Cmd
-  | [], _, _ => []
-  | _ :: r, 0, x => x :: r
-  | y :: r, i + 1, x => y :: setAt r i x
+/-- commands are numbered from 0 in the model (tag T(c+1) on the wire) -/
+def cmdAt? (s : St) (c : Nat) : Option Cmd := s.cmds[c]?
 
 def setCmd (s : St) (c : Nat) (x : Cmd) : St :=
-  { s with cmds := setAt s.cmds (c - 1) x }
+  { s with cmds := s.cmds.set c x }
 
 /-- `completeCommand(cmd, err)`: deliver the result, cancel its continuation request, close its stream -/
 def completeOne (x : Cmd) (ok : Bool) : Cmd :=
@@ -188,7 +186,11 @@ def rTok (s : St) : Option St :=
 
 /-- the reader's read fails (EOF, error, deadline, closed): `read` returns, `closeWithError` -/
 def rFail (s : St) : Option St :=
-  if s.reader = .reading && s.tail ≠ .stall && (s.inbox = [] || s.inbox.head? = some .cutoff) then
+  -- no token can be processed: the input is exhausted or cut (then the read fails once the
+  -- connection does), or the next token is a protocol error for the client (unknown tag, unmatched
+  -- continuation request, ...: `readResponse` returns an error at once)
+  if s.reader = .reading && (rTok s).isNone &&
+     (s.tail ≠ .stall || !(s.inbox = [] || s.inbox.head? = some .cutoff)) then
     -- unwinding through handleFetch closes the in-flight message's items channel
     some { closeConn s with reader := .exited, cmds := failAll s.cmds, flight := none }
   else none
@@ -202,41 +204,60 @@ def record (s : St) (c : Cls) : St :=
   | [] => s
   | _ :: r => { s with prog := r, out := s.out ++ [c], pos := .ready }
 
-/-- issue command c (`beginCommand` … `flush`): on a dead client the write fails and
-    `closeWithError` completes it at once -/
-def issueCmd (s : St) (c : Nat) (withCont : Bool) : Option St :=
-  match cmdAt? s c with
-  | none => none
-  | some x =>
-    let x1 : Cmd := { x with issued := true, cont := if withCont then .waiting else x.cont }
-    let s1 := setCmd s c x1
-    some (if s.closedLocal then { s1 with cmds := failAll s1.cmds } else s1)
+/-- issue command c (`beginCommand` … `flush`): on a closed connection the write fails and
+    `closeWithError` completes everything pending at once -/
+def issueCmd (s : St) (c : Nat) (x : Cmd) (withCont : Bool) : St :=
+  let x1 : Cmd := { x with issued := true, cont := if withCont then .waiting else x.cont }
+  let s1 := setCmd s c x1
+  if s.closedLocal then { s1 with cmds := failAll s1.cmds } else s1
 
 def clsOf (ok : Bool) : Cls := if ok then .ok else .err
 
-/-- the caller starts its next phase -/
+/-- start consuming the stream of an issued command -/
+def consume (s : St) (c : Nat) (w : Bool) : St :=
+  match cmdAt? s c with
+  | some x => if x.issued then { s with pos := .msgs c w } else record s .skipped
+  | none => record s .skipped
+
+/-- a command method that blocks on a continuation request while holding the encoder mutex -/
+def issueBlocking (s : St) (c : Nat) (kindOk : Kind → Bool) : St :=
+  match cmdAt? s c with
+  | some x => if kindOk x.kind then { issueCmd s c x true with mutex := true, pos := .cont c } else record s .skipped
+  | none => record s .skipped
+
+/-- the caller starts a phase. A call for which there is no command handle (unknown or not yet
+    issued command, wrong kind) cannot be made: it is recorded as skipped. -/
+def startPhase (s : St) : Phase → St
+  | .greetWait => { s with pos := .greet }
+  | .issue c =>
+    match cmdAt? s c with
+    | some x => record (issueCmd s c x false) .ret
+    | none => record s .skipped
+  | .wait c =>
+    match cmdAt? s c with
+    | some x => if !x.issued || (x.kind = .idle && s.idleFailed) then record s .skipped else { s with pos := .res c }
+    | none => record s .skipped
+  | .collect c => consume s c true
+  | .close c => consume s c true
+  | .loop c => consume s c false
+  | .issueCont c => issueBlocking s c fun k => k = .login || k = .append
+  | .idle c => issueBlocking s c fun k => k = .idle
+  | .auth c => issueBlocking s c fun k => k = .auth
+  | .appendWrite c =>
+    match cmdAt? s c with
+    | some x => if x.issued then record { s with mutex := false } (clsOf (x.cont = .granted)) else record s .skipped
+    | none => record s .skipped
+  | .idleDone _ => record { s with mutex := false } (if s.idleFailed then .skipped else .ret)
+  | .starttls c =>
+    match cmdAt? s c with
+    | some x => if x.kind = .starttls then { issueCmd s c x false with mutex := true, pos := .res c } else record s .skipped
+    | none => record s .skipped
+
 def cStart (s : St) : Option St :=
   if s.pos ≠ .ready then none else
   match s.prog with
   | [] => none
-  | .greetWait :: _ => some { s with pos := .greet }
-  | .issue c :: _ => (issueCmd s c false).map fun s' => record s' .ret
-  | .wait c :: _ =>
-    match cmdAt? s c with
-    | some x => if x.kind = .idle && s.idleFailed then some (record s .skipped) else some { s with pos := .res c }
-    | none => none
-  | .collect c :: _ => some { s with pos := .msgs c true }
-  | .close c :: _ => some { s with pos := .msgs c true }
-  | .loop c :: _ => some { s with pos := .msgs c false }
-  | .issueCont c :: _ => (issueCmd s c true).map fun s' => { s' with mutex := true, pos := .cont c }
-  | .idle c :: _ => (issueCmd s c true).map fun s' => { s' with mutex := true, pos := .cont c }
-  | .auth c :: _ => (issueCmd s c true).map fun s' => { s' with mutex := true, pos := .cont c }
-  | .appendWrite c :: _ =>
-    match cmdAt? s c with
-    | some x => some (record { s with mutex := false } (clsOf (x.cont = .granted)))
-    | none => none
-  | .idleDone _ :: _ => some (record { s with mutex := false } (if s.idleFailed then .skipped else .ret))
-  | .starttls c :: _ => (issueCmd s c false).map fun s' => { s' with mutex := true, pos := .res c }
+  | ph :: _ => some (startPhase s ph)
 
 /-- WaitGreeting returns: greeting received or `decCh` closed -/
 def cGreet (s : St) : Option St :=
@@ -338,11 +359,11 @@ def pFire (s : St) : Option St :=
   else none
 
 def rules : List (St → Option St) :=
-  [rTok, rResume, rFail, cStart, cGreet, cRes, cTls, cMsgs, cItems, cLit, cCont, kClose, kRet, pFire, kFinal]
+  [cStart, cGreet, cRes, cTls, cMsgs, cItems, cLit, cCont, rTok, rResume, rFail, kClose, kRet, pFire, kFinal]
 
 /-- rules of the system without the final Close of the caller (used while the fault is being set up) -/
 def rulesNoFinal : List (St → Option St) :=
-  [rTok, rResume, rFail, cStart, cGreet, cRes, cTls, cMsgs, cItems, cLit, cCont, kClose, kRet, pFire]
+  [cStart, cGreet, cRes, cTls, cMsgs, cItems, cLit, cCont, rTok, rResume, rFail, kClose, kRet, pFire]
 
 def Step (s s' : St) : Prop := ∃ r ∈ rules, r s = some s'
 
